@@ -254,11 +254,23 @@ func checkC19(c *Ctx) {
 		"close(change) is deferred before anything else in the only sender", "close(change) is not deferred as the first statement of the sending goroutine: some exit path leaves the notification stream open")
 	// a goroutine waits for ctx.Done and closes the watcher
 	closer := false
-	for _, af := range worker.AnonFuncs {
+	// candidates: closures of the worker and named functions it starts with `go`
+	var cands []*ssa.Function
+	cands = append(cands, worker.AnonFuncs...)
+	for _, b := range worker.Blocks {
+		for _, in := range b.Instrs {
+			if g, ok := in.(*ssa.Go); ok {
+				if f := g.Call.StaticCallee(); f != nil && f.Parent() == nil && c.P.OwnedFunc(f) {
+					cands = append(cands, f)
+				}
+			}
+		}
+	}
+	for _, af := range cands {
 		waits, closes := false, false
 		for _, b := range af.Blocks {
 			for _, in := range b.Instrs {
-				if u, ok := in.(*ssa.UnOp); ok && u.Op.String() == "<-" && isCtxDone(u.X) {
+				if u, ok := in.(*ssa.UnOp); ok && u.Op.String() == "<-" && (isCtxDone(u.X) || isCtxDoneOfParam(u.X)) {
 					waits = true
 				}
 				if call, ok := in.(*ssa.Call); ok {
@@ -271,8 +283,16 @@ func checkC19(c *Ctx) {
 		if waits && closes {
 			for _, b := range worker.Blocks {
 				for _, in := range b.Instrs {
-					if g, ok := in.(*ssa.Go); ok && closureOf(g.Call.Value) == af && !inCycle(b) {
+					if g, ok := in.(*ssa.Go); ok && (closureOf(g.Call.Value) == af || g.Call.StaticCallee() == af) && !inCycle(b) {
 						closer = true
+						// a named function must be handed the caller's own context, not a fresh one
+						for _, a := range g.Call.Args {
+							if n, isN := a.Type().(*types.Named); isN && n.Obj().Name() == "Context" {
+								if _, isCall := a.(*ssa.Call); isCall {
+									closer = false
+								}
+							}
+						}
 					}
 				}
 			}
@@ -299,6 +319,48 @@ func checkC19(c *Ctx) {
 	c.MinCount("R19.5", 2)
 	c.DecidedClause("the watcher observes exactly the four directories the loader reads; a notification is sent iff the event is a write and the lower-cased name has the loader's suffix; the hand-off observes cancellation; close(change) is deferred first in the only sender, a goroutine closes the watcher on cancellation and the loop ranges over the watcher's event channel; the consumer cancels the per-cycle device context on a notification and the outer loop reloads the configurations")
 	c.UndecidedClause("kernel notification timing and coalescing (inotify), fsnotify internals; the result of watcher.Add is dropped (a directory that cannot be watched is silently ignored - note, not part of the statement)")
+}
+
+// isCtxDoneOfParam: v is ctx.Done() of a context.Context parameter (a named goroutine function receiving the context).
+func isCtxDoneOfParam(v ssa.Value) bool {
+	call, ok := v.(*ssa.Call)
+	if !ok || !call.Call.IsInvoke() || call.Call.Method.Name() != "Done" {
+		return false
+	}
+	_, isParam := call.Call.Value.(*ssa.Parameter)
+	return isParam
+}
+
+// selectTook: the path's atoms on the select's chosen index are consistent with case idx.
+func selectTook(p *Path, idx int64) bool {
+	for _, a := range p.Atoms {
+		op, l, r, ok := normAtom(a)
+		if !ok {
+			continue
+		}
+		if _, isC := l.IsConst(); isC {
+			l, r, op = r, l, flipOp(op)
+		}
+		l = l.StripConv()
+		if !(l.Op == "extract" && l.Aux == "0" && len(l.Args) == 1 && l.Args[0].Op == "select") {
+			continue
+		}
+		k, isK := r.IsIntConst()
+		if !isK {
+			continue
+		}
+		switch op {
+		case "==":
+			if idx != k {
+				return false
+			}
+		case "!=":
+			if idx == k {
+				return false
+			}
+		}
+	}
+	return true
 }
 
 func stripIDs(s string) string {
@@ -365,36 +427,41 @@ func ruleChangeConsumer(c *Ctx, change *chanClass) {
 			c.Bad("R19.5", key, pos, "the change channel is not consumed by a select")
 			continue
 		}
-		// after the receive case: a call of a CancelFunc on every path of that case
-		cancelled := false
+		// every path that takes the change case calls the CancelFunc of the per-cycle context before it waits again
+		// or returns (one iteration of the consumer, from the select back to the select)
 		fn := r.Fn
-		for _, b := range fn.Blocks {
-			for _, in := range b.Instrs {
-				if call, ok := in.(*ssa.Call); ok && call.Call.StaticCallee() == nil && !call.Call.IsInvoke() && isCancelFunc(call.Call.Value) {
+		start := sel.Block()
+		paths, err := Enumerate(fn, SymConfig{Prog: c.P, MaxDepth: 1, Collapse: true, OnlyInline: map[*ssa.Function]bool{}, Start: start, Stop: map[*ssa.BasicBlock]bool{start: true}})
+		if err != nil {
+			c.Undec("R19.5", key+"/cancels-device-context", pos, fmt.Sprint(err))
+			continue
+		}
+		c.Paths += len(paths)
+		idx := int64(r.Aux)
+		n, bad := 0, ""
+		for _, p := range paths {
+			if p.End == "cut" || !selectTook(p, idx) {
+				continue
+			}
+			n++
+			cancelled := false
+			for _, e := range p.Effects {
+				if e.Kind != "call" {
+					continue
+				}
+				if call, ok := e.Instr.(*ssa.Call); ok && call.Call.StaticCallee() == nil && !call.Call.IsInvoke() && strings.Contains(call.Call.Value.Type().String(), "CancelFunc") {
 					cancelled = true
 				}
-				if call, ok := in.(*ssa.Call); ok && call.Call.StaticCallee() == nil && !call.Call.IsInvoke() {
-					if ld, ok := call.Call.Value.(*ssa.UnOp); ok {
-						if _, isFV := ld.X.(*ssa.FreeVar); isFV && strings.Contains(ld.Type().String(), "CancelFunc") {
-							cancelled = true
-						}
-					}
-				}
+			}
+			if !cancelled {
+				bad = fmt.Sprintf("a path that receives a change notification does not cancel the device context (it %s): that change is swallowed and the devices keep running with the old configuration", map[bool]string{true: "goes back to waiting", false: "ends"}[strings.HasPrefix(p.End, "exit")])
 			}
 		}
-		// every select state leads to a cancel: count cancel calls >= number of states
-		n := 0
-		for _, b := range fn.Blocks {
-			for _, in := range b.Instrs {
-				if call, ok := in.(*ssa.Call); ok && call.Call.StaticCallee() == nil && !call.Call.IsInvoke() {
-					if strings.Contains(call.Call.Value.Type().String(), "CancelFunc") {
-						n++
-					}
-				}
-			}
+		if n == 0 {
+			c.Undec("R19.5", key+"/cancels-device-context", pos, "no path takes the change-notification case")
+			continue
 		}
-		c.Check(cancelled && n >= len(sel.States), "R19.5", key+"/cancels-device-context", pos, fmt.Sprintf("select with %d case(s), each followed by cancel() of the per-cycle context", len(sel.States)),
-			"a configuration change notification does not cancel the device context: devices keep running with the old configuration")
+		c.Check(bad == "", "R19.5", key+"/cancels-device-context", pos, fmt.Sprintf("%d path(s) through the change case, each calls cancel() of the per-cycle context", n), bad)
 	}
 	c.Check(len(change.Recvs) >= 1, "R19.5", "consumer/exists", c.P.Pos(run.Pos()), "the notification channel has a consumer", "nobody receives from the notification channel")
 	// the outer loop reloads
